@@ -192,7 +192,9 @@ func c16StartServers(root string) *c16Servers {
 	return c16Srv
 }
 
-func c16HostOf(srv *httptest.Server) string { return strings.TrimPrefix(strings.TrimPrefix(srv.URL, "https://"), "http://") }
+func c16HostOf(srv *httptest.Server) string {
+	return strings.TrimPrefix(strings.TrimPrefix(srv.URL, "https://"), "http://")
+}
 
 func (s *c16Servers) addr(kind, tok string) string {
 	switch kind {
